@@ -326,6 +326,38 @@ func c11(c *Ctx) {
 				copies = true // a clone keeps the root of the filesystem it was made from
 			}
 		}
+		// a helper that builds a NEW filesystem object from a root handed to it: every caller must pass the constructor's
+		// root or another filesystem's root
+		if !isCtor && !copies {
+			if pr, isP := st.Val.(*ssa.Parameter); isP {
+				if fa, okFA := st.Addr.(*ssa.FieldAddr); okFA {
+					if _, fresh := fa.X.(*ssa.Alloc); fresh {
+						idx := paramIdx(pr)
+						nSites, good := 0, true
+						for _, g := range p.Funcs() {
+							for _, call := range Calls(g) {
+								if call.Common().StaticCallee() != fn || idx >= len(call.Common().Args) {
+									continue
+								}
+								nSites++
+								a := call.Common().Args[idx]
+								fromRoot := false
+								if ld, ok := a.(*ssa.UnOp); ok && ld.Op == token.MUL {
+									if fa2, ok := ld.X.(*ssa.FieldAddr); ok && NamedOf(fa2.X.Type()) == s.htfs && fa2.Field == s.rootIdx {
+										fromRoot = true
+									}
+								}
+								inCtor := g.Name() == "New" && RelPkg(PkgOf(g)) == fsRel
+								if !fromRoot && !inCtor {
+									good = false
+								}
+							}
+						}
+						copies = good && nSites > 0
+					}
+				}
+			}
+		}
 		c.Check(isCtor || copies, "root-immutable", shortFn(fn)+" stores Htfs.root", p.InstrPos(st), "root set by the constructor (or copied unchanged into a clone)", "the filesystem root is written outside the constructor with a value that is not another filesystem's root")
 	}
 	// RealPath summary
@@ -375,7 +407,38 @@ func c11(c *Ctx) {
 				}
 				if idxs := fsPathParams(f); len(idxs) > 0 {
 					nsinks++
-					c.Violate("fs-sink-contained", shortFn(fn)+" calls "+FuncShort(f), p.InstrPos(call), "file-system access by path outside the driver: FTP code must reach the file system only through Driver methods (which map paths through RealPath)")
+					// a helper of the driver: the path is the helper's own parameter and every caller passes a contained path
+					okHelper := true
+					for _, ai := range idxs {
+						if ai >= len(call.Common().Args) {
+							continue
+						}
+						pr, isP := call.Common().Args[ai].(*ssa.Parameter)
+						if !isP {
+							okHelper = false
+							continue
+						}
+						pi, nSites := paramIdx(pr), 0
+						for _, g := range p.Funcs() {
+							for _, c2 := range Calls(g) {
+								if c2.Common().StaticCallee() != fn || pi >= len(c2.Common().Args) {
+									continue
+								}
+								nSites++
+								if okC, _ := s.contained(c2.Common().Args[pi]); !okC {
+									okHelper = false
+								}
+							}
+						}
+						if nSites == 0 {
+							okHelper = false
+						}
+					}
+					if okHelper {
+						c.Ok("fs-sink-contained", shortFn(fn)+" calls "+FuncShort(f), p.InstrPos(call), "helper of the driver: every caller passes a RealPath result")
+					} else {
+						c.Violate("fs-sink-contained", shortFn(fn)+" calls "+FuncShort(f), p.InstrPos(call), "file-system access by path outside the driver: FTP code must reach the file system only through Driver methods (which map paths through RealPath)")
+					}
 				}
 			}
 			continue
